@@ -33,7 +33,7 @@
 EXTENDS Naturals, Sequences, FiniteSets, TLC
 
 CONSTANTS
-    Part,       \* "priv" | "pub" | "scanpriv" | "scanpub" | "chain"
+    Part,       \* "priv" | "pub" | "scanpriv" | "scanpub" | "chain" | "layout"
     Variant,    \* "code" = faithful model; others are seeded-wrong (sensitivity)
     Bcrypt,     \* bcrypt with KDF support is installed (detected at run time)
     MaxBlocks,  \* scanner: maximal number of text blocks in a file
@@ -289,11 +289,67 @@ ChainNextSts(k, s) ==
                ELSE {})
 
 -----------------------------------------------------------------------------
+(* Part "layout": text files as OTHER implementations write them.          *)
+(* RFC 4716: headers folded over several physical lines with a trailing     *)
+(* backslash (section 3.3: lines of at most 72 bytes), several headers in    *)
+(* any order, private x- headers, quoted / unquoted comment, blank line,    *)
+(* CRLF, base64 lines of 72 / 64 / 40 characters, trailing white space, no  *)
+(* final newline.  The header unfolding is a small machine: one step per    *)
+(* physical header line; UnfoldOK says the comment is the concatenation of  *)
+(* ALL physical lines of the Comment header.  PEM and one-line OpenSSH      *)
+(* layouts are enumerated for the harness (prediction: same key; comment as *)
+(* written for OpenSSH lines, none for PEM).                                *)
+
+HdrArr == {<<>>, <<"C">>, <<"S", "C">>, <<"C", "X">>, <<"X", "C", "S">>}
+
+RfcCases ==
+    [fmt : {"rfc4716"}, hdrs : HdrArr, nl : 1..4, onl : {1, 3}, quoted : BOOLEAN,
+     eol : {"lf", "crlf"}, width : {72, 64, 40}, trailws : BOOLEAN, finalnl : BOOLEAN,
+     blank : BOOLEAN]
+PemCases ==
+    [fmt : {"pem"}, kind : {"pub-pkcs8", "pub-pkcs1", "priv-pkcs8", "priv-pkcs1", "priv-openssh"},
+     eol : {"lf", "crlf"}, width : {64, 76, 48, 0}, lead : BOOLEAN, trail : BOOLEAN,
+     trailws : BOOLEAN, finalnl : BOOLEAN]
+OsshCases ==
+    [fmt : {"openssh"}, sep : {"space", "spaces", "tab", "mixed"},
+     comment : {"none", "plain", "spaces"}, opts : BOOLEAN, leadws : BOOLEAN,
+     trailws : BOOLEAN, eol : {"lf", "crlf"}, finalnl : BOOLEAN]
+LayoutCases == RfcCases \cup PemCases \cup OsshCases
+
+LinesOf(k, h) == IF k.hdrs[h] = "C" THEN k.nl ELSE k.onl
+\* all physical lines <<h, j>> of header h, in order
+AllLines(k, h) == [j \in 1..LinesOf(k, h) |-> <<h, j>>]
+
+LayoutInitSt == [h |-> 1, j |-> 1, acc |-> <<>>, comment |-> <<>>]
+
+LayoutStep(k, s) ==      \* one physical header line of an RFC 4716 file
+    LET n == LinesOf(k, s.h)
+        id == <<s.h, s.j>>
+    IN IF s.j < n
+       THEN \* continuation line: keep accumulating
+            [s EXCEPT !.j = s.j + 1,
+                      !.acc = IF Variant = "replace_on_continue" THEN <<id>>
+                              ELSE Append(s.acc, id)]
+       ELSE LET full == Append(s.acc, id) IN
+            [s EXCEPT !.h = s.h + 1, !.j = 1, !.acc = <<>>,
+                      !.comment = IF k.hdrs[s.h] = "C" THEN full ELSE s.comment]
+
+LayoutDone(k, s) == k.fmt # "rfc4716" \/ s.h > Len(k.hdrs)
+
+\* the comment is made of every physical line of the Comment header
+UnfoldOK ==
+    (Part = "layout" /\ pc = "done" /\ c.fmt = "rfc4716") =>
+        LET cs == {h \in DOMAIN c.hdrs : c.hdrs[h] = "C"} IN
+        IF cs = {} THEN st.comment = <<>>
+        ELSE st.comment = AllLines(c, CHOOSE h \in cs : TRUE)
+
+-----------------------------------------------------------------------------
 Cases == CASE Part = "priv"     -> PrivCases
            [] Part = "pub"      -> PubCases
            [] Part = "scanpriv" -> ScanPrivCases
            [] Part = "scanpub"  -> ScanPubCases
            [] Part = "chain"    -> ChainCases
+           [] Part = "layout"   -> LayoutCases
 
 Init ==
     /\ c \in Cases
@@ -301,6 +357,7 @@ Init ==
     /\ res = "pending"
     /\ st = CASE Part \in {"scanpriv", "scanpub"} -> ScanInit
               [] Part = "chain" -> ChainInitSt
+              [] Part = "layout" -> LayoutInitSt
               [] OTHER -> [export |-> "pending", import |-> "pending"]
 
 TableStep ==
@@ -322,11 +379,17 @@ ChainStepAct ==
     \/ \E t \in ChainNextSts(c, st) : st' = t /\ pc' = "run" /\ res' = res
     \/ /\ ChainNextSts(c, st) = {} /\ pc' = "done" /\ res' = "ok" /\ st' = st
 
+LayoutStepAct ==
+    IF LayoutDone(c, st)
+    THEN /\ pc' = "done" /\ res' = "ok" /\ st' = st
+    ELSE /\ st' = LayoutStep(c, st) /\ pc' = "run" /\ res' = res
+
 Next ==
     /\ pc = "run" /\ UNCHANGED c
     /\ CASE Part \in {"priv", "pub"} -> TableStep
          [] Part \in {"scanpriv", "scanpub"} -> ScanStepAct
          [] Part = "chain" -> ChainStepAct
+         [] Part = "layout" -> LayoutStepAct
 
 Spec == Init /\ [][Next]_vars
 
@@ -383,5 +446,6 @@ EmitRows ==
     (Emit /\ pc = "done") =>
         PrintT(ToString(CASE Part \in {"priv", "pub"} -> <<c, st.export, st.import>>
                           [] Part \in {"scanpriv", "scanpub"} -> <<c, st.err, st.keys>>
-                          [] Part = "chain" -> <<c, st.hist, st.priv>>))
+                          [] Part = "chain" -> <<c, st.hist, st.priv>>
+                          [] Part = "layout" -> <<c, res, st.comment>>))
 =============================================================================
